@@ -78,6 +78,7 @@ type Exec struct {
 	Decisions   map[string]int
 	NMustRefuse int
 	LenientRef  int
+	Pending      []*Attempt // prepared /io attempts whose halves are still parked at admission
 	AfterTrigger func() // called once right after the next End has triggered its endings
 	NoAdmissionVerdicts bool // set by properties other than C01: do not judge must-refuse
 	ProbesLive  int
@@ -221,6 +222,10 @@ func (x *Exec) Admit(a *Attempt, dir string) *Stream {
 	if must {
 		x.NMustRefuse++
 	}
+	doomed := x.doomed(a, dir)
+	if s.State == StLive && doomed != nil && !x.NoAdmissionVerdicts {
+		x.Viol("refused-bidirectional-attempt-keeps-other-half", fmt.Sprintf("%s was attached although the other half of the same /io request had been refused (%s): the refused attempt was not ended and can now be sent operator input", s, doomed.Reason))
+	}
 	if s.State == StLive {
 		if must && !(x.M.Down == 1) && !x.NoAdmissionVerdicts {
 			x.Viol("admitted-"+why, fmt.Sprintf("%s was admitted although the property demands refusal (%s); model: in=%v out=%v tearing=%v down=%d", s, why, x.M.Slot["input"], x.M.Slot["output"], x.M.Tearing, x.M.Down))
@@ -237,6 +242,18 @@ func (x *Exec) Admit(a *Attempt, dir string) *Stream {
 				x.curGen.Full = true
 			}
 		}
+		if a.ctx.Err() != nil {
+			// its request context is already dead (the harness cancelled the attempt):
+			// it must end by itself right away
+			if x.waitParkedRelease(s, from) {
+				s.State = StEnded
+				if !s.Held {
+					x.release(s)
+				}
+			} else {
+				x.stall("%s was attached with a cancelled context and did not end", s)
+			}
+		}
 		return s
 	}
 	if !must {
@@ -250,8 +267,19 @@ func (x *Exec) Admit(a *Attempt, dir string) *Stream {
 			x.Viol("refusal-not-announced", fmt.Sprintf("%s was refused (%s) but no red operator notice names %s", s, s.Reason, a.Addr))
 		}
 	}
-	if s.State == StSilent && x.M.Down == 0 {
+	if s.State == StSilent && x.M.Down == 0 && doomed == nil && !x.orphan(a, dir) && a.ctx.Err() == nil {
 		x.Viol("silent-refusal-while-up", fmt.Sprintf("%s returned without any decision record although the broker is not shutting down", s))
+	}
+	if sib := x.liveSibling(a, dir); sib != nil && (s.State == StRefused || s.State == StSilent) {
+		// the attempt as a whole was refused: its attached half must be ended at once
+		if x.waitParkedRelease(sib, from) {
+			sib.State = StEnded
+			if !sib.Held {
+				x.release(sib)
+			}
+		} else if !x.NoAdmissionVerdicts {
+			x.Viol("refused-bidirectional-attempt-keeps-other-half", fmt.Sprintf("%s was refused (%s) but the other half %s of the same /io request stayed attached", s, s.Reason, sib))
+		}
 	}
 	// a refused direction must finish: wait for its done hook
 	if ev.Kind != "hook" {
@@ -261,6 +289,39 @@ func (x *Exec) Admit(a *Attempt, dir string) *Stream {
 		}
 	}
 	return s
+}
+
+// doomed returns the refused sibling half of an /io attempt, if any.
+func (x *Exec) doomed(a *Attempt, dir string) *Stream {
+	if a.Kind != "io" {
+		return nil
+	}
+	sib := x.stream(a, other(dir))
+	if sib.State == StRefused || sib.State == StSilent {
+		return sib
+	}
+	return nil
+}
+
+// orphan: the sibling half of an /io attempt has already ended.
+func (x *Exec) orphan(a *Attempt, dir string) bool {
+	if a.Kind != "io" {
+		return false
+	}
+	sib := x.stream(a, other(dir))
+	return sib.State == StEnded || sib.State == StReleased
+}
+
+// liveSibling returns the attached sibling half of an /io attempt, if any.
+func (x *Exec) liveSibling(a *Attempt, dir string) *Stream {
+	if a.Kind != "io" {
+		return nil
+	}
+	sib := x.stream(a, other(dir))
+	if sib.State == StLive && x.M.Slot[sib.Dir] == sib {
+		return sib
+	}
+	return nil
 }
 
 // Connect is Prepare followed by Admit of each direction (input first unless
